@@ -8,6 +8,7 @@ import (
 	"sort"
 	"strings"
 	"sync"
+	"sync/atomic"
 	"time"
 
 	"github.com/kercylan98/vivid"
@@ -108,6 +109,7 @@ func c03Accounting(r *R) {
 		target string
 		n, k   int
 	}
+	var draining atomic.Bool
 	kinds := []string{"tell", "tell", "burst-with-failure", "kill+tells", "tell-ghost", "stash", "unstash", "make-zombie", "actor-tell", "tell-terminated"}
 	plan := make([][]op, nSenders)
 	var odesc []string
@@ -164,6 +166,9 @@ func c03Accounting(r *R) {
 				case 5:
 					r.Count("stash")
 					send(name, seq, o.target, "any", func(ctx vivid.ActorContext, p *Probe) {
+						if draining.Load() {
+							return // the final drain hands every stashed message back: it is processed for good this time
+						}
 						p.record(ctx, Event{Kind: "Stashed", ID: ctx.Message().(*Cmd).ID})
 						ctx.Stash()
 					})
@@ -278,6 +283,53 @@ func c03Accounting(r *R) {
 		} else {
 			r.Count("outcome:dead-letter")
 		}
+	}
+	// ---- "sits in the target's stash" is verified, not assumed: every actor is told to un-stash everything; a message that
+	// was stashed k times must by now have been handed to a behaviour again, or published as a dead letter, k times
+	// (a stash that was discarded - by a restart, or with its terminated owner - is a silent loss) ----
+	draining.Store(true)
+	for _, p := range paths {
+		w.Tell(w.RefBy("create", nil, p), w.NewCmd("drain", 0, func(ctx vivid.ActorContext, p *Probe) {
+			if n := ctx.StashCount(); n > 0 {
+				r.Count("drained-stash")
+				ctx.Unstash(n)
+			}
+		}))
+	}
+	vsimrt.SettleFor(2 * time.Second)
+	if r.Failed() {
+		return
+	}
+	evs = w.Events()
+	nCmd, nStash, nDL = map[int]int{}, map[int]int{}, map[int]int{}
+	for _, e := range evs {
+		switch {
+		case e.Kind == "Cmd":
+			nCmd[e.ID]++
+		case e.Kind == "Stashed":
+			nStash[e.ID]++
+		case e.Kind == "Evt:DeathLetter" && e.ID != 0:
+			nDL[e.ID]++
+		}
+	}
+	for _, s := range sent {
+		exempt := false
+		for z := range zs {
+			if s.To == z || strings.HasPrefix(s.To, z+"/") {
+				exempt = true
+			}
+		}
+		c, st, dl := nCmd[s.ID], nStash[s.ID], nDL[s.ID]
+		if exempt || st == 0 || c == 0 {
+			continue
+		}
+		if (c-1)+dl < st {
+			state := c03TargetState(evs, s)
+			r.Fail(fmt.Sprintf("C03/stash-lost target-state=%s", state), "message #%d to %s was stashed %d time(s) but handed back to a behaviour only %d time(s) and published as a dead letter %d time(s): a stashed copy is neither in a stash (every actor was told to un-stash everything) nor processed nor a dead letter; target history: %s", s.ID, s.To, st, c-1, dl, c03History(evs, s.To))
+			w.DumpNotes(300)
+			return
+		}
+		r.Count("stashed-message-accounted-for")
 	}
 	// ---- after Stop: undeliverable messages are dropped without causing further work ----
 	if err := w.Stop(30 * time.Second); err != nil {
